@@ -64,6 +64,17 @@ pub fn dispatch(req: &Value) -> Result<Value, String> {
             }
             Ok(json!(outs))
         }
+        "heck" => {
+            use heck::{ToLowerCamelCase, ToSnakeCase};
+            let a = s(req, "arg");
+            Ok(json!({"camel": a.to_lower_camel_case(), "snake": a.to_snake_case()}))
+        }
+        "serde_case" => {
+            // serde-rename-rule (the crate the repository links) on a field / variant name
+            let rule = serde_rename_rule::RenameRule::from_rename_all_str(&s(req, "rule")).map_err(|_| "bad rule".to_string())?;
+            let a = s(req, "arg");
+            Ok(json!({"field": rule.apply_to_field(&a), "variant": rule.apply_to_variant(&a)}))
+        }
         other => Err(format!("unknown op {}", other)),
     }
 }
